@@ -478,3 +478,33 @@ Theorem slot_frame : forall d i j v, i <> j -> slot_get (slot_set d i v) j = slo
 Proof.
   intros d i j v H. unfold slot_set. destruct (slot_get d i), v; apply slot_put_get_other; assumption.
 Qed.
+
+(* ---- whole-cost assignment ----------------------------------------------------------------------- *)
+Theorem whole_assignment : forall s c ops s' rs, Normal c ->
+  set_raw_cost false s c = (c, Ok tt) /\
+  (run c ops = (s', rs) -> Normal s' /\ (abs s', rs) = sp_run (abs c) ops).
+Proof.
+  intros s c ops s' rs N. split; [reflexivity|]. intros E. exact (run_refines ops c s' rs N E).
+Qed.
+
+Theorem whole_assignment_refused : forall s c, set_raw_cost true s c = (s, Err ValueError).
+Proof. reflexivity. Qed.
+
+(* ---- outside Normal: number and currency as separate components -------------------------------- *)
+Lemma separate_not_normal : forall s, separate_b s = true -> normal_b s = false.
+Proof.
+  intros [b l] H. unfold separate_b, normal_b in *. cbn [c_comps] in *. rewrite count_amountlike.
+  unfold count in H.
+  apply andb_prop in H as [H H4]. apply andb_prop in H as [H H3]. apply andb_prop in H as [H1 H2].
+  apply Nat.eqb_eq in H1, H2, H3, H4.
+  replace (length (filter is_compound l) + length (filter is_amount l) + length (filter is_number l)
+           + length (filter is_currency l) <=? 1)%nat with false; [reflexivity|].
+  symmetry. apply Nat.leb_gt. lia.
+Qed.
+
+Theorem non_normal_refuted : exists s ops,
+  separate_b s = true /\ abs (fst (run s ops)) <> fst (sp_run (abs s) ops).
+Proof.
+  exists (mkcost Unit [KNumber 1; KCurrency 2]), [OTotal (Some 5)].
+  split; [reflexivity | vm_compute; discriminate].
+Qed.
